@@ -251,6 +251,19 @@ func (e *engine) exec(blocks [][][]byte, watchSrc [][][]byte, hdrSrc [][][]byte)
 		if execErr != nil {
 			core.Fatal("OnExecute returned an error (machinery, not a verdict): %v", execErr)
 		}
+		// the reported byte slices are read here for the first time: a torn slice header
+		// (pointer and length from different writes) faults on access
+		if p, v, _ := core.Try(func() {
+			for i, t := range br.Valid {
+				br.Valid[i] = append([]byte{}, t...)
+			}
+			for i, t := range br.Invalid {
+				br.Invalid[i] = append([]byte{}, t...)
+			}
+		}); p {
+			rec.Panic, rec.PanicAt, rec.PanicPhase, rec.PanicSite, rec.PanicVal = true, bi, "result", "chain/app/evm.exeWithCPUParallelVeirfy", "reading the bytes of a reported tx faults: "+core.FirstLine(v)
+			return rec
+		}
 		if p, v, st := core.Try(func() {
 			cr, err := c.Commit(blk)
 			if err != nil {
@@ -320,8 +333,13 @@ func (e *engine) check(blocks [][][]byte) (fs []finding, outcome []string, rec *
 				cls = e.info(b[0]).class
 			}
 		}
-		fs = append(fs, finding{sig: map[string]string{"kind": "panic", "phase": rec.PanicPhase, "site": rec.PanicSite, "input": cls},
-			detail: fmt.Sprintf("panic in %s of a block of %d txs: %s [at %s]", rec.PanicPhase, len(b), rec.PanicVal, rec.PanicSite), block: rec.PanicAt, tx: tx})
+		if rec.PanicPhase == "result" {
+			fs = append(fs, finding{sig: map[string]string{"kind": "reported-bytes-lost", "symptom": "torn-slice", "rule": "report"},
+				detail: fmt.Sprintf("block of %d txs: ExecuteResult holds a byte slice with a torn header (%s); schedule-dependent: the executing loop read the tx bytes while the decoding goroutine was storing them", len(b), rec.PanicVal), block: rec.PanicAt, tx: -1})
+		} else {
+			fs = append(fs, finding{sig: map[string]string{"kind": "panic", "phase": rec.PanicPhase, "site": rec.PanicSite, "input": cls},
+				detail: fmt.Sprintf("panic in %s of a block of %d txs: %s [at %s]", rec.PanicPhase, len(b), rec.PanicVal, rec.PanicSite), block: rec.PanicAt, tx: tx})
+		}
 		for i := range outcome {
 			outcome[i] = "not-judged"
 		}
@@ -396,7 +414,7 @@ func (e *engine) check(blocks [][][]byte) (fs []finding, outcome []string, rec *
 						which = append(which, e.info(t).class)
 					}
 				}
-				fs = append(fs, finding{sig: map[string]string{"kind": "reported-with-empty-bytes", "rule": "report"},
+				fs = append(fs, finding{sig: map[string]string{"kind": "reported-bytes-lost", "symptom": "empty", "rule": "report"},
 					detail: fmt.Sprintf("block %d (%d txs): %d InvalidTxs / %d ValidTxs entries carry empty bytes instead of the transaction (%s); schedule-dependent: the executing loop read the tx bytes before the decoding goroutine stored them", bi+1, len(txs), lostI, lostV, strings.Join(which, ",")), block: bi, tx: -1})
 			}
 		}
